@@ -204,7 +204,23 @@ _reg(GAPI2, "ctor_parse_state", "ctpg::detail::parse_state::parse_state", "binds
      "beginning, no pending term, normal mode")
 _reg(GAPI2, "ctor_value_reductors", "ctpg::detail::value_reductors::value_reductors", "binds the rule tuple, fills one reductor per rule")
 
+# ---------------------------------------------------------------- how the name / id tables of the parser are filled
+NAMEFILL = []
+_reg(NAMEFILL, "analyze_eof", "ctpg::parser::analyze_eof", "<eof>: name and id from eof::get_name(), precedence 0, no associativity")
+_reg(NAMEFILL, "analyze_error_token", "ctpg::parser::analyze_error_recovery_token", "error: name and id from "
+     "error_recovery_token::get_name(), precedence 0, no associativity")
+_reg(NAMEFILL, "analyze_term", "ctpg::parser::analyze_term", "slot TermIdx: name, id, precedence, associativity from the term's getters")
+_reg(NAMEFILL, "analyze_nterm", "ctpg::parser::analyze_nterm", "slot idx: the nterm's name", nparams=2)
+_reg(NAMEFILL, "analyze_nterm_root", "ctpg::parser::analyze_nterm", "the fake root's name in its slot", nparams=1)
+_reg(NAMEFILL, "ert_get_name", "ctpg::error_recovery_token::get_name", "<error_recovery_token>")
+_reg(NAMEFILL, "ert_get_id", "ctpg::error_recovery_token::get_id", "same as the name: cannot collide with a user term (angle brackets)")
+_reg(NAMEFILL, "eof_get_name", "ctpg::detail::eof::get_name", "<eof>")
+_reg(NAMEFILL, "fake_root_get_name", "ctpg::detail::fake_root::get_name", "##")
+_reg(NAMEFILL, "make_symbol_term", "ctpg::parser::make_symbol", "term: index of its id in term_ids", ptypes={"0": "term"})
+_reg(NAMEFILL, "make_symbol_nterm", "ctpg::parser::make_symbol", "nterm: index of its name in nterm_names", ptypes={"0": "nterm"})
+
 GROUPS = {
+    "NAMEFILL": NAMEFILL,
     "GAPI2": GAPI2,
     "CVEC2": CVEC2, "BUFIT": BUFIT, "TVAL": TVAL, "UTIL": UTIL, "GAPI": GAPI,
     "DFAB": DFAB,
